@@ -277,7 +277,8 @@ Section Del.
     Rep h1 root1 NIL (plug cy sx) /\ NoDup (ids (plug cy sx)) /\
     ids (plug cy sx) = cbefore cy ++ (ids ly ++ ids ry) ++ cafter cy /\
     (x = NIL \/ In x (ids sx)) /\
-    (forall j, hkey h1 j = hkey h j /\ hval h1 j = hval h j /\ hmax h1 j = hmax h j /\ hred h1 j = hred h j).
+    (forall j, hkey h1 j = hkey h j /\ hval h1 j = hval h j /\ hmax h1 j = hmax h j /\ hred h1 j = hred h j) /\
+    hparent h1 y = hparent h y.
   Proof.
     intros HR HN Hone x sx h1 root1.
     apply Rep_plug in HR. destruct HR as (p & HC & Hy). pose proof Hy as Hy0. simpl in Hy.
@@ -311,7 +312,11 @@ Section Del.
       rewrite E in E2. exact (DC' _ (Isx _ E1) E2). }
     destruct (splice_facts h root y x Hxy Hxp) as (Froot & _ & Fkv & Foth & Fx & Fp).
     fold h1 in Froot, Fkv, Foth, Fx, Fp. fold root1 in Froot. rewrite Hyp in *.
-    split; [|split; [|split; [|split; [exact Rx|exact Fkv]]]].
+    assert (Hyp1 : hparent h1 y = cpar cy).
+    { destruct (Foth y) as (_ & _ & E); [auto| |congruence].
+      destruct Ryp as [E|[E _]]; [congruence|]. intros E'. rewrite <- E' in E.
+      apply (DC' y); [apply in_or_app; right; now left|exact E]. }
+    split; [|split; [|split; [|split; [exact Rx|split; [exact Fkv|exact Hyp1]]]]].
     - apply Rep_plug. exists x. split.
       + eapply RepC_swap; [exact HC| |].
         * intros j Hj Hne. apply Foth; [|exact Hne]. intros ->. destruct Rx as [E|E]; [rewrite E in Hj; contradiction|].
@@ -356,30 +361,17 @@ Section Del.
   Lemma refresh_sbm (h : heap) i a b : same_but_max h (refresh h i a b).
   Proof. unfold Tree.refresh. apply sbm_set_max. Qed.
 
-  Variable geq : G -> G -> bool.
-  Lemma del_up1_sbm : forall fuel (h : heap) ymin cur h',
-    del_up1 ggt geq nmin fuel h ymin cur = Some h' -> same_but_max h h'.
+  Lemma del_up1_sbm : forall fuel (h : heap) cur h',
+    del_up1 ggt nmin fuel h cur = Some h' -> same_but_max h h'.
   Proof.
-    induction fuel as [|f IH]; intros h ymin cur h' H; simpl in H.
+    induction fuel as [|f IH]; intros h cur h' H; simpl in H.
     - destruct (hparent h cur =? NIL); [|discriminate]. injection H as <-. apply sbm_refl.
     - destruct (hparent h cur =? NIL); [injection H as <-; apply sbm_refl|].
-      destruct (geq _ _); [|injection H as <-; apply sbm_refl].
       eapply sbm_trans; [apply recompute_sbm|]. eapply IH. exact H.
-  Qed.
-  Lemma del_up2_sbm : forall fuel (h : heap) zg x z h',
-    del_up2 ggt geq nmin fuel h zg x z = Some h' -> same_but_max h h'.
-  Proof.
-    induction fuel as [|f IH]; intros h zg x z h' H; simpl in H.
-    - destruct (hparent h z =? NIL); [|discriminate]. injection H as <-. apply sbm_refl.
-    - destruct (hparent h z =? NIL); [injection H as <-; apply sbm_refl|].
-      eapply sbm_trans; [|eapply IH; exact H].
-      destruct (geq _ _).
-      + destruct (_ && _); [apply recompute_sbm|apply sbm_refl].
-      + destruct (ggt _ _); [apply sbm_set_max|apply sbm_refl].
   Qed.
 
   Variable klt : K -> K -> bool.
-  Notation t_delete := (@t_delete K G N klt ggt geq nmin).
+  Notation t_delete := (@t_delete K G N klt ggt nmin).
   Notation hmin := (@hmin K G N nmin).
 
   Definition del_body (fuel : nat) (h : heap) (root z y : Z) : option (@dres K G N) :=
@@ -388,7 +380,7 @@ Section Del.
     let h1 := fst (fst sp) in
     let root1 := snd (fst sp) in
     let to_fix := snd sp in
-    match del_up1 ggt geq nmin fuel h1 (hmin h1 y) y with
+    match del_up1 ggt nmin fuel h1 y with
     | None => None
     | Some h2 =>
       if to_fix =? NIL then None
@@ -398,7 +390,7 @@ Section Del.
                  let zgrad := hmin h3 z in
                  let h4 := set_kv h3 z (hkey h3 y) (hval h3 y) in
                  let h5 := refresh h4 z (hmax h4 (hleft h4 z)) (hmax h4 (hright h4 z)) in
-                 del_up2 ggt geq nmin fuel h5 zgrad x z
+                 del_up2 ggt nmin fuel h5 z
                else Some h3) with
         | None => None
         | Some h6 =>
@@ -438,7 +430,7 @@ Section Del.
       (y <> z -> hkey h' z = hkey h y /\ hval h' z = hval h y).
   Proof.
     intros HR HN Hone HB H. unfold del_body in H.
-    destruct (splice_ok h root cy ly y ry HR HN Hone) as (R1 & N1 & I1 & X1 & KV1).
+    destruct (splice_ok h root cy ly y ry HR HN Hone) as (R1 & N1 & I1 & X1 & KV1 & _).
     set (x := if negb (hleft h y =? NIL) then hleft h y else hright h y) in *.
     set (sx := match ly with L => ry | _ => ly end) in *.
     set (h1 := fst (fst (splice h root y x))) in *.
@@ -446,8 +438,8 @@ Section Del.
     set (to_fix := snd (splice h root y x)) in *.
     assert (G1 : SGood h1 root1 (cbefore cy ++ (ids ly ++ ids ry) ++ cafter cy)).
     { exists (plug cy sx). split; [split; assumption|exact I1]. }
-    destruct (del_up1 ggt geq nmin fuel h1 (hmin h1 y) y) as [h2|] eqn:H2; [|discriminate].
-    pose proof (del_up1_sbm _ _ _ _ _ H2) as S2.
+    destruct (del_up1 ggt nmin fuel h1 y) as [h2|] eqn:H2; [|discriminate].
+    pose proof (del_up1_sbm _ _ _ _ H2) as S2.
     destruct (to_fix =? NIL); [discriminate|].
     set (h3 := refresh h2 to_fix (hmax h2 (hleft h2 to_fix)) (hmax h2 (hright h2 to_fix))) in *.
     assert (S3 : same_but_max h1 h3). { eapply sbm_trans; [exact S2|apply refresh_sbm]. }
@@ -460,7 +452,7 @@ Section Del.
                  let zgrad := hmin h3 z in
                  let h4 := set_kv h3 z (hkey h3 y) (hval h3 y) in
                  let h5 := refresh h4 z (hmax h4 (hleft h4 z)) (hmax h4 (hright h4 z)) in
-                 del_up2 ggt geq nmin fuel h5 zgrad x z
+                 del_up2 ggt nmin fuel h5 z
                else Some h3) = Some h6 ->
               (forall j, same_ptrs h1 h6 j) /\ (forall j, hred h6 j = hred h j) /\
               (forall j, j <> z \/ y = z -> hkey h6 j = hkey h j /\ hval h6 j = hval h j) /\
@@ -470,7 +462,7 @@ Section Del.
         split; [intros j _; destruct (K13 j) as (A & B & _); auto|]. intros Hc. contradiction.
       - set (h4 := set_kv h3 z (hkey h3 y) (hval h3 y)) in *.
         set (h5 := refresh h4 z (hmax h4 (hleft h4 z)) (hmax h4 (hright h4 z))) in *.
-        pose proof (del_up2_sbm _ _ _ _ _ _ H6) as S6.
+        pose proof (del_up1_sbm _ _ _ _ H6) as S6.
         assert (S56 : same_but_max h4 h6). { eapply sbm_trans; [apply refresh_sbm|exact S6]. }
         split; [|split; [|split]].
         + intros j. destruct (S56 j) as ((A & B & C) & _). destruct (S3 j) as ((A3 & B3 & C3) & _).
